@@ -1211,3 +1211,275 @@ Definition prog_class_list (pr : program) (ixs : list nat) : list decl :=
 Definition prog_in_model (pr : program) (classes : list (list nat)) : bool :=
   prog_defined pr
   && forallb (fun ixs => match prog_class pr ixs with Some _ => true | None => false end) classes.
+
+(* ------------------------------------------------------------------ *)
+(* 13. The environment of a history: NetworkTables timestamps and the   *)
+(*     clock; classes whose tunables change while the program runs      *)
+(* ------------------------------------------------------------------ *)
+
+(* ---- 13a. timestamps ------------------------------------------------ *)
+
+(* Every NetworkTables value carries a timestamp (microseconds of the NT
+   clock; 0 = "only a default", see below).  A publisher may supply the
+   timestamp itself (Publisher.set(value, time), Value.makeX(value, time));
+   time = 0 stands for "now".  ntcore's clock is the wall clock, or -- once
+   the HAL is initialised (robot tests, simulation) -- the HAL clock, which
+   can be PAUSED and stepped: everything that happens between two steps then
+   carries one and the same timestamp.
+
+   ntcore's LocalStorage::SetValue (recorded from observation and from its
+   source, not code of /repo; validated by the correspondence under the paused
+   clock, op GNtStamp):
+     - a value is dropped when its timestamp is older than that of the value
+       the topic holds (unless that one is 0);
+     - a value equal to the one the topic holds is a duplicate: nothing
+       changes, the topic keeps its timestamp;
+     - setDefault stores the value with timestamp 0. *)
+Fixpoint same_list {A : Type} (f : A -> A -> bool) (l1 l2 : list A) : bool :=
+  match l1, l2 with
+  | [], [] => true
+  | x :: r1, y :: r2 => f x y && same_list f r1 r2
+  | _, _ => false
+  end.
+Definition same_scalar (a b : scalar) : bool :=
+  match a, b with
+  | SBool x, SBool y => Bool.eqb x y
+  | SInt x, SInt y => Z.eqb x y
+  | SFloat x, SFloat y => Z.eqb x y
+  | SStr x, SStr y => String.eqb x y
+  | SBytes x, SBytes y => same_list N.eqb x y
+  | SStruct n f, SStruct m g => String.eqb n m && same_list Z.eqb f g
+  | SOther, SOther => true
+  | _, _ => false
+  end.
+Definition same_value (a b : value) : bool :=
+  match a, b with
+  | VScalar x, VScalar y => same_scalar x y
+  | VList x, VList y => same_list same_scalar x y
+  | VTuple x, VTuple y => same_list same_scalar x y
+  | _, _ => false
+  end.
+
+(* last-change timestamp per topic (latest entry wins; 0 when the topic has no
+   value or only a default) *)
+Definition stamps := list (string * Z).
+Fixpoint stamp_get (s : stamps) (k : string) : Z :=
+  match s with
+  | [] => 0%Z
+  | (k', t) :: r => if String.eqb k' k then t else stamp_get r k
+  end.
+
+(* how a client stamps an update *)
+Inductive stampsel :=
+| SNow                         (* time = 0 / omitted: the NT clock                     *)
+| SSame                        (* the timestamp of the value the topic holds right now
+                                  (a second update for the same camera frame, ...)     *)
+| SOlder                       (* one microsecond before that: a stale update          *)
+| SAt (t : Z).                 (* an explicit timestamp                                 *)
+
+Definition sel_time (now st : Z) (s : stampsel) : Z :=
+  match s with
+  | SNow => now
+  | SSame => if Z.eqb st 0 then now else st
+  | SOlder => if Z.leb st 1 then now else (st - 1)%Z
+  | SAt t => if Z.eqb t 0 then now else t
+  end.
+
+(* value.time() >= lastValue.time(), or lastValue has no time *)
+Definition accepts (st t : Z) : bool := Z.eqb st 0 || Z.leb st t.
+
+Definition is_dup (m : ntmap) (k : string) (ty : ntype) (v : value) : bool :=
+  match nt_get m k with
+  | Some (ty', v') => ntype_eqb ty ty' && same_value v v'
+  | None => false
+  end.
+
+(* Entry.set / Publisher.set with timestamp t: the new map, the new
+   timestamps, and whether the value was accepted (not dropped as stale) *)
+Definition nt_write_at (m : ntmap) (s : stamps) (k : string) (ty : ntype) (v : value) (t : Z)
+  : ntmap * stamps * bool :=
+  if accepts (stamp_get s k) t
+  then (nt_set m k ty v, if is_dup m k ty v then s else (k, t) :: s, true)
+  else (m, s, false).
+
+(* the loop of setup_tunables with the timestamps in the picture: `set`
+   happens at the clock's time, `setDefault` leaves the timestamp at 0 *)
+Fixpoint setup_loop_t (pfx : string) (ds : list (decl * ntype)) (nt : ntmap) (st : stamps)
+         (now : Z) (b : binding) : ntmap * stamps * binding * bool :=
+  match ds with
+  | [] => (nt, st, b, true)
+  | (d, ty) :: r =>
+      if starts_with "_" (d_attr d) then setup_loop_t pfx r nt st now b
+      else
+        let key := key_in pfx (d_subtable d) (d_attr d) in
+        let v := entry_value ty (d_default d) in
+        let '(nt', st', ok) :=
+          if d_wd d then nt_write_at nt st key ty v now
+          else (nt_set_default nt key ty v, st, true) in
+        let '(nt2, st2, b2, ok2) := setup_loop_t pfx r nt' st' now ((d_attr d, (key, ty, v)) :: b) in
+        (nt2, st2, b2, ok && ok2)
+  end.
+
+(* ---- 13b. classes that change ---------------------------------------- *)
+
+(* setattr(cls, name, obj) -- `cls.name = tunable(...)` executed after the
+   class statement: the class's OWN namespace (the first of the MRO) binds
+   the name to the new object; the entry the namespace held for that name is
+   gone.  magicbot's StateMachine does this in every instance construction
+   (cls.state_names = tunable(..); cls.state_descriptions = tunable(..)).
+   tunable.__set_name__ is NOT called for such an assignment: the topic type
+   is what __init__ resolved from the default (no hint). *)
+Definition body_assign (b : classbody) (m : member) : classbody :=
+  m :: filter (fun x => negb (String.eqb (member_name x) (member_name m))) b.
+Definition mro_assign (mro : list classbody) (m : member) : list classbody :=
+  match mro with
+  | [] => [[m]]
+  | b :: r => body_assign b m :: r
+  end.
+(* the classes of a program, by number *)
+Fixpoint classes_assign (cl : list (list classbody)) (c : nat) (m : member)
+  : list (list classbody) :=
+  match cl, c with
+  | [], _ => []
+  | mro :: r, O => mro_assign mro m :: r
+  | mro :: r, S c' => mro :: classes_assign r c' m
+  end.
+
+(* ---- 13c. histories in that environment ------------------------------- *)
+
+Record gworld := mkg {
+  g_x : xworld;
+  g_now : Z;                             (* the NT clock                         *)
+  g_stamps : stamps;
+  g_classes : list (list classbody)      (* class number |-> its MRO as it is NOW *)
+}.
+
+Inductive gop :=
+| GX (o : xop)                                    (* everything of sections 6-11; writes happen at the clock's time *)
+| GTick (d : Z)                                   (* the clock advances by d (stepTiming; d < 0: it jumps back)     *)
+| GNtWriteAt (key : string) (ty : ntype) (v : value) (s : stampsel)
+                                                  (* a client publishes with a timestamp of its own                 *)
+| GNtStamp (key : string)                         (* an independent subscriber looks at the topic's timestamp       *)
+| GClassAssign (c : nat) (m : member)             (* setattr(class c, name, tunable(..) | something else)           *)
+| GSetupOf (i c : nat) (prefix : option string) (cname : string).
+                                                  (* setup_tunables(instance i of class c AS IT IS NOW, cname, prefix) *)
+
+Inductive gevent :=
+| GEv (e : xevent)
+| GStamp (t : Z)
+| GDone
+| GNoClass.                                       (* class number out of range *)
+
+Definition g_with_x (g : gworld) (x : xworld) : gworld :=
+  mkg x (g_now g) (g_stamps g) (g_classes g).
+
+(* a write of v (already converted for the entry) to topic k at time t *)
+Definition gwrite (g : gworld) (k : string) (ty : ntype) (v : value) (t : Z) : gworld * bool :=
+  let w := x_w (g_x g) in
+  let '(nt', st', ok) := nt_write_at (w_nt w) (g_stamps g) k ty v t in
+  (mkg (mkx (mkworld nt' (w_inst w)) (x_truth (g_x g))) (g_now g) st' (g_classes g), ok).
+
+Definition gsetup (g : gworld) (i : nat) (cls : list decl) (prefix : option string)
+           (cname : string) : gworld * gevent * bool :=
+  let w := x_w (g_x g) in
+  match class_topics cls with
+  | None => (g, GEv (XEv (EvSetup false)), true)
+  | Some ds =>
+      let '(nt', st', b, ok) :=
+        setup_loop_t (key_prefix prefix cname) ds (w_nt w) (g_stamps g) (g_now g) [] in
+      (mkg (mkx (mkworld nt' ((i, b) :: w_inst w)) (x_truth (g_x g))) (g_now g) st' (g_classes g),
+       GEv (XEv (EvSetup true)), ok)
+  end.
+
+(* one operation: the new world, the event, and whether every NetworkTables
+   write of the operation was accepted (false: ntcore dropped one as stale) *)
+Definition gstep (g : gworld) (o : gop) : gworld * gevent * bool :=
+  match o with
+  | GX (XOp (Setup i cls p c)) => gsetup g i cls p c
+  | GX (XOp (PyWrite i a v)) =>
+      match inst_get (w_inst (x_w (g_x g))) i with
+      | None => (g, GEv (XEv EvErr), true)
+      | Some b =>
+          match bind_get b a with
+          | None => (g, GEv (XEv EvErr), true)
+          | Some (key, ty, _) =>
+              let '(g', ok) := gwrite g key ty (entry_value ty v) (g_now g) in
+              (g', GEv (XEv EvWrote), ok)
+          end
+      end
+  | GX (XOp (NtWrite key ty v)) =>
+      let '(g', ok) := gwrite g key ty (canon v) (g_now g) in
+      (g', GEv (XEv EvWrote), ok)
+  | GX o' =>
+      let '(x', e) := xstep (g_x g) o' in
+      (g_with_x g x', GEv e, true)
+  | GTick d => (mkg (g_x g) (g_now g + d)%Z (g_stamps g) (g_classes g), GDone, true)
+  | GNtWriteAt key ty v s =>
+      let t := sel_time (g_now g) (stamp_get (g_stamps g) key) s in
+      let '(g', ok) := gwrite g key ty (canon v) t in
+      (g', GEv (XEv EvWrote), ok)
+  | GNtStamp key => (g, GStamp (stamp_get (g_stamps g) key), true)
+  | GClassAssign c m =>
+      match nth_error (g_classes g) c with
+      | Some _ => (mkg (g_x g) (g_now g) (g_stamps g) (classes_assign (g_classes g) c m), GDone, true)
+      | None => (g, GNoClass, true)
+      end
+  | GSetupOf i c p n =>
+      match nth_error (g_classes g) c with
+      | Some mro => gsetup g i (class_members mro) p n
+      | None => (g, GNoClass, true)
+      end
+  end.
+
+Fixpoint grun (g : gworld) (h : list gop) : gworld * list (gevent * bool) :=
+  match h with
+  | [] => (g, [])
+  | o :: r =>
+      let '(g1, e, ok) := gstep g o in
+      let '(g2, es) := grun g1 r in
+      (g2, (e, ok) :: es)
+  end.
+
+(* the world a program starts in: nothing published, the clock at t0, the
+   classes as their class statements leave them *)
+Definition g0 (t0 : Z) (cl : list (list classbody)) : gworld := mkg x0 t0 [] cl.
+
+(* the same history with the environment forgotten: no clock, no timestamps,
+   every setup with the tunables the class has at that moment written out *)
+Fixpoint gerase (cl : list (list classbody)) (h : list gop) : list xop :=
+  match h with
+  | [] => []
+  | GX o :: r => o :: gerase cl r
+  | GTick _ :: r => gerase cl r
+  | GNtStamp _ :: r => gerase cl r
+  | GNtWriteAt k ty v _ :: r => XOp (NtWrite k ty v) :: gerase cl r
+  | GClassAssign c m :: r =>
+      gerase (match nth_error cl c with Some _ => classes_assign cl c m | None => cl end) r
+  | GSetupOf i c p n :: r =>
+      match nth_error cl c with
+      | Some mro => XOp (setup_class i mro p n) :: gerase cl r
+      | None => gerase cl r
+      end
+  end.
+
+(* the events of the operations that survive [gerase] *)
+Fixpoint gevents (l : list (gevent * bool)) : list xevent :=
+  match l with
+  | [] => []
+  | (GEv e, _) :: r => e :: gevents r
+  | _ :: r => gevents r
+  end.
+
+Definition all_accepted (l : list (gevent * bool)) : bool := forallb snd l.
+
+(* histories in which no client stamps an update with a time of its own
+   choosing other than "now" / "the same as the value it replaces", and the
+   clock never runs backwards *)
+Definition sel_timely (s : stampsel) : bool :=
+  match s with SNow | SSame => true | SOlder | SAt _ => false end.
+Definition gop_timely (o : gop) : bool :=
+  match o with
+  | GTick d => Z.leb 0 d
+  | GNtWriteAt _ _ _ s => sel_timely s
+  | _ => true
+  end.
